@@ -149,3 +149,13 @@ VARIANTS += [
     dict(id="c01-rdb-template-shallow-copy", prop="C01", file=RDB, expect="R01.5",
          old="                frozen = copy.deepcopy(template_trial)\n", new="                frozen = copy.copy(template_trial)\n"),
 ]
+
+VARIANTS += [
+    dict(id="c01-inmem-template-distributions-not-registered", prop="C01", file=IM, expect="R01.13",
+         old="            for param_name, distribution in trial.distributions.items():\n                self._studies[study_id].param_distribution.setdefault(param_name, distribution)\n",
+         new=""),
+    dict(id="c01-journal-create-study-returns-counter", prop="C01", file=JS, expect="R01.18",
+         old="                study_id = frozen_study._study_id\n", new="                study_id = self._replay_result._next_study_id - 1\n"),
+    dict(id="c01-cached-get-all-trials-unsorted", prop="C01", file=CS, expect="R01.19",
+         old="            trials = list(sorted(trials.values(), key=lambda t: t.number))\n", new="            trials = list(trials.values())\n"),
+]
